@@ -338,6 +338,8 @@ KwGet(kw, n) == LET idx == {i \in 1..Len(kw.n) : kw.n[i] = n} IN
 
 (* -- calls ---------------------------------------------------------------------------- *)
 CallValue(f, args, kw, s, E) ==
+    \* unbounded template recursion ends in a RecursionError at an unspecified depth: not judged
+    IF E.dep > 8 THEN Fail(s, "EXCLUDED") ELSE
     CASE f.t = "macro" -> InvokeMacro(f, args, kw, s, E)
       [] f.t = "fn" ->
            \* a callable supplied by the data: logged, result scripted by its mode
@@ -381,7 +383,7 @@ RenderBlockRef(b, s, E) ==
     LET def == s.cx[b.cx].blocks[b.name][b.idx]
         s0 == NewFrame([s EXCEPT !.out = <<>>], def.pre)
         E2 == [sc |-> <<LastFrame(s0)>>, cx |-> b.cx, auto |-> def.auto, tpl |-> def.tpl, top |-> FALSE,
-               blk |-> [name |-> b.name, idx |-> b.idx], loopd |-> 0]
+               blk |-> [name |-> b.name, idx |-> b.idx], loopd |-> 0, dep |-> E.dep + 1]
         r == ExSeq(def.body, s0, E2) IN
     IF r.err # "" THEN R(VNone, [r EXCEPT !.out = s.out])
     ELSE R(VStr(r.out, b.auto), [r EXCEPT !.out = s.out])
@@ -400,7 +402,7 @@ BindParams(m, i, args, kw, s, fid) ==
          ELSE IF kv.found THEN BindParams(m, i + 1, args, kw, SetVar(s, fid, p, kv.v), fid)
          ELSE IF di >= 1 THEN
               LET Ed == [sc |-> <<fid>> \o m.sc, cx |-> m.cx, auto |-> m.auto, tpl |-> m.tpl, top |-> FALSE,
-                         blk |-> m.blk, loopd |-> 0]
+                         blk |-> m.blk, loopd |-> 0, dep |-> 0]
                   r == Ev(m.defaults[di], s, Ed) IN
               IF Bad(r) THEN r.S ELSE BindParams(m, i + 1, args, kw, SetVar(r.S, fid, p, r.v), fid)
          ELSE BindParams(m, i + 1, args, kw,
@@ -433,7 +435,7 @@ InvokeMacro(m, args, kw, s, E) ==
                           IF callerKw.found THEN callerKw.v
                           ELSE VUndef([k |-> "hint", n |-> "No caller defined"])) ELSE s3
         Em == [sc |-> <<fid>> \o m.sc, cx |-> m.cx, auto |-> m.auto, tpl |-> m.tpl, top |-> FALSE,
-               blk |-> m.blk, loopd |-> 0]
+               blk |-> m.blk, loopd |-> 0, dep |-> E.dep + 1]
         r == IF s4.err # "" THEN s4 ELSE ExSeq(m.body, s4, Em)
     IN IF r.err # "" THEN R(VNone, [r EXCEPT !.out = s.out])
        ELSE R(VStr(r.out, m.auto), [r EXCEPT !.out = s.out, !.flow = ""])
@@ -680,13 +682,13 @@ RunLoop(node, itv, depth0, s, E, isRec, inner) ==
 ChildCtx(s, tname, parentMap) ==
     LET s0 == NewFrame(s, EmptyMap) IN
     NewCtx(s0, [vars |-> LastFrame(s0), parent |-> parentMap, exported |-> {}, blocks |-> EmptyMap,
-                par |-> "", tpl |-> tname])
+                par |-> "", tpl |-> tname, chain |-> <<>>])
 
 TplAuto(tname) == Tpls[tname].auto
 
-RootEnv(s, c, tname) ==
+RootEnv(s, c, tname, dep) ==
     [sc |-> <<s.cx[c].vars>>, cx |-> c, auto |-> TplAuto(tname), tpl |-> tname, top |-> TRUE,
-     blk |-> [name |-> "", idx |-> 0], loopd |-> 0]
+     blk |-> [name |-> "", idx |-> 0], loopd |-> 0, dep |-> dep]
 
 \* register the blocks of template `tname` at the end of every block stack of context c
 RegisterBlocks(s, c, tname) ==
@@ -698,17 +700,17 @@ RegisterBlocks(s, c, tname) ==
                    (IF n \in names THEN <<[tpl |-> tname, body |-> bs[n].body, auto |-> TplAuto(tname),
                                            scoped |-> bs[n].scoped, required |-> bs[n].required,
                                            pre |-> PreMap(bs[n], "pre")]>> ELSE <<>>)]
-    IN [s EXCEPT !.cx[c].blocks = new]
+    IN [s EXCEPT !.cx[c].blocks = new, !.cx[c].chain = Append(@, tname)]
 
 \* render the root of template `tname` in context c (own blocks registered first), following
 \* the chain of `extends`
 RenderTemplateBody(tname, c, s, depth) ==
-    IF depth > 6 THEN Fail(s, "EXCLUDED").S
+    IF depth > 12 THEN Fail(s, "EXCLUDED").S
     ELSE
     LET s00 == RegisterBlocks(s, c, tname)
         \* the template's own root level pre-declares its names (kept if already assigned)
         s0 == [s00 EXCEPT !.fr[s00.cx[c].vars] = @ @@ PreMap(Tpls[tname], "pre")]
-        r == ExSeq(Tpls[tname].body, s0, RootEnv(s0, c, tname)) IN
+        r == ExSeq(Tpls[tname].body, s0, RootEnv(s0, c, tname, depth + 1)) IN
     IF r.err # "" THEN r
     ELSE IF r.cx[c].par # "" THEN
          LET p == r.cx[c].par IN
@@ -719,7 +721,7 @@ RenderTemplateBody(tname, c, s, depth) ==
 MakeModule(tname, parentMap, s, E) ==
     LET s0 == ChildCtx([s EXCEPT !.out = <<>>], tname, parentMap)
         c == LastCtx(s0)
-        r == RenderTemplateBody(tname, c, s0, 0) IN
+        r == RenderTemplateBody(tname, c, s0, E.dep + 1) IN
     IF r.err # "" THEN R(VNone, [r EXCEPT !.out = s.out])
     ELSE LET ex == r.cx[c].exported
              attrs == [n \in {x \in ex : r.fr[r.cx[c].vars][x].t # "missing"} |-> r.fr[r.cx[c].vars][n]] IN
@@ -838,12 +840,13 @@ Ex(st, s, E) ==
                           THEN \* scoped: a derived context that also holds the visible locals
                                LET s0 == NewFrame(s, EmptyMap) IN
                                NewCtx(s0, [vars |-> LastFrame(s0), parent |-> Visible(s, E), exported |-> {},
-                                           blocks |-> s.cx[E.cx].blocks, par |-> "", tpl |-> s.cx[E.cx].tpl])
+                                           blocks |-> s.cx[E.cx].blocks, par |-> "", tpl |-> s.cx[E.cx].tpl,
+                                           chain |-> s.cx[E.cx].chain])
                           ELSE s
                     cB == IF st.scoped THEN LastCtx(sA) ELSE E.cx
                     s0 == NewFrame(sA, def.pre)
                     E2 == [sc |-> <<LastFrame(s0)>>, cx |-> cB, auto |-> def.auto, tpl |-> def.tpl, top |-> FALSE,
-                           blk |-> [name |-> st.name, idx |-> 1], loopd |-> 0] IN
+                           blk |-> [name |-> st.name, idx |-> 1], loopd |-> 0, dep |-> E.dep + 1] IN
                 ExSeq(def.body, s0, E2)
       [] st.k = "extends" ->
            LET r == Ev(st.e, s, E) IN
@@ -864,7 +867,7 @@ Ex(st, s, E) ==
                 ELSE LET s1 == Log(r.S, <<"load", p.n>>) IN
                      IF st.with_context THEN
                          LET s2 == ChildCtx([s1 EXCEPT !.out = <<>>], p.n, Visible(s1, E))
-                             rr == RenderTemplateBody(p.n, LastCtx(s2), s2, 0) IN
+                             rr == RenderTemplateBody(p.n, LastCtx(s2), s2, E.dep + 1) IN
                          IF rr.err # "" THEN [rr EXCEPT !.out = s1.out]
                          ELSE IF Suppressed(s1, E) THEN [rr EXCEPT !.out = s1.out]
                          ELSE [rr EXCEPT !.out = s1.out \o rr.out]
@@ -903,7 +906,7 @@ InitS ==
     LET top == EmptyMap IN
     [fr |-> <<top>>, ns |-> <<>>,
      cx |-> <<[vars |-> 1, parent |-> Data @@ Globals, exported |-> {}, blocks |-> EmptyMap,
-               par |-> "", tpl |-> Case.main]>>,
+               par |-> "", tpl |-> Case.main, chain |-> <<>>]>>,
      out |-> <<>>, log |-> <<>>, err |-> "", flow |-> "", mods |-> EmptyMap]
 
 Init ==
@@ -923,7 +926,7 @@ Init ==
 StepTop ==
     /\ phase = "render"
     /\ todo # <<>> /\ S.err = ""
-    /\ S' = Ex(Head(todo), S, RootEnv(S, rootcx, S.cx[rootcx].tpl))
+    /\ S' = Ex(Head(todo), S, RootEnv(S, rootcx, S.cx[rootcx].tpl, 0))
     /\ todo' = Tail(todo)
     /\ UNCHANGED <<cid, did, phase, rootcx, result>>
 
@@ -974,6 +977,16 @@ C15_TemplateTextVerbatim == Cfg.all_auto => \A i \in 1..Len(S.out) : S.out[i].o 
 \* without autoescaping anywhere nothing is ever escaped unless the program asks for it
 C16_OffNeverEscapes ==
     (Cfg.none_auto /\ Case.neutral) => \A i \in 1..Len(S.out) : S.out[i].e = 0
+
+\* C04: in every context the stack of definitions of a block lists, most derived first, exactly
+\* the templates of the inheritance chain (in chain order) that define the block
+RECURSIVE ChainDefs(_, _)
+ChainDefs(chain, n) ==
+    IF chain = <<>> THEN <<>>
+    ELSE (IF n \in DOMAIN Tpls[Head(chain)].blocks THEN <<Head(chain)>> ELSE <<>>) \o ChainDefs(Tail(chain), n)
+C04_StackIsChainOrder ==
+    \A c \in 1..Len(S.cx) : \A n \in DOMAIN S.cx[c].blocks :
+        [i \in 1..Len(S.cx[c].blocks[n]) |-> S.cx[c].blocks[n][i].tpl] = ChainDefs(S.cx[c].chain, n)
 
 \* C03: statement execution leaves no control-flow residue at top level and every
 \* context's variable frame exists
